@@ -12,10 +12,12 @@ print("facts:", extract.facts_for("main"))
 # the full-workspace shape (RocksDB backend) is needed by C08 and C11; building it once takes a few minutes
 print("facts:", extract.facts_for("rocks"))
 print("facts:", extract.facts_for("sertest"))
+print("facts:", extract.facts_for_fixture("derivefix"))
 # warm the C14 witness crate (builds the path dependencies of qbice_stable_type_id once)
 from qbv.ctx import Ctx
 from qbv import witness
 c = Ctx("C14", "quick")
 selfs = {im["self_ty"] for im in c.prog.impls if (im.get("trait") or "").endswith("Identifiable")}
 print("witness:", witness.run(selfs, full=False)[:2])
+print("witness:", witness.run_varint()[0])
 PY
